@@ -862,3 +862,100 @@ package trzsz
 //@     invariant [C02] step == wlen[file] - old(wlen)[file] && wlen[hasher] == step
 //@     invariant [C02] forall k int {wlog[hasher][k]} :: 0 <= k && k < wlen[hasher] ==> wlog[hasher][k] == wlog[file][old(wlen)[file] + k]
 //@ end
+
+// ===========================================================================
+// C20  the progress line (progress.go). Display width vw() and the per-format facts about
+// fmt.Sprintf are declared, as assumptions, in /verif/specs/trusted.spec.
+// ===========================================================================
+
+//@ # a name cut to a budget of max cells: at most max cells wide, and the reported width is honest
+//@ func getEllipsisString
+//@   requires max >= 3
+//@   assigns sbWidth, sbAscii
+//@   ensures vw(r0) <= r1 && r1 <= max
+//@   loop 1
+//@     invariant 0 <= length && length <= max
+//@     invariant sbWidth[b] <= length
+//@ end
+
+//@ # the bar is total (no input makes it fail) and exactly as wide as asked, or absent below 12 cells
+//@ func textProgressBar.getProgressBar
+//@   requires p.colorA == nil || p.colorB == nil
+//@   assigns nothing
+//@   ensures length < 12 ==> len(r0) == 0
+//@   ensures length >= 12 ==> vw(r0) == length
+//@ end
+
+
+//@ # C20: whatever the name, the counts and the (ASCII) fields are, the line is never wider than the
+//@ # terminal: fields are dropped and the name shortened step by step, and what is left is either
+//@ # exactly the width (with a bar of at least 12 cells) or just the percentage.
+//@ func textProgressBar.getProgressText
+//@   requires p.colorA == nil || p.colorB == nil
+//@   requires isAscii(percentage) && isAscii(total) && isAscii(speed) && isAscii(eta) && len(percentage) <= 4
+//@   assigns sbWidth, sbAscii
+//@   ensures atomicVal[p.columns] >= 4 ==> vw(r0) <= atomicVal[p.columns]
+//@ end
+
+//@ func convertSizeToString pure
+//@   ensures isAscii(r0)
+//@ end
+//@ func convertTimeToString
+//@   assigns sbWidth, sbAscii
+//@   ensures isAscii(r0)
+//@ end
+
+//@ # the ring of recent samples: the cursor stays inside it, and every slot that is read has been written
+//@ pure rsWF(s *recentSpeed) bool = 0 <= s.speedIdx && s.speedIdx < 30 && 1 <= s.speedCnt && \
+//@     (s.speedCnt < 30 ==> s.speedIdx == s.speedCnt) && (s.speedCnt == 30 ==> s.speedIdx == 0) && \
+//@     (forall i int {s.timeArray[i]} :: 0 <= i && i < 30 && i < s.speedCnt ==> s.timeArray[i] != nil)
+
+//@ func recentSpeed.initFirstStep
+//@   assigns s.timeArray, s.stepArray, s.speedCnt, s.speedIdx
+//@   ensures rsWF(s)
+//@ end
+//@ func recentSpeed.getSpeed
+//@   requires rsWF(s)
+//@   assigns s.timeArray, s.stepArray, s.speedCnt, s.speedIdx
+//@   ensures rsWF(s)
+//@ end
+
+//@ # what a progress bar object needs between two callbacks
+//@ pure pbWF(p *textProgressBar) bool = (p.colorA == nil || p.colorB == nil) && rsWF(p.recentSpeed)
+
+//@ func encodeTmuxOutput
+//@   assigns bufLen, bufCap, bufArr, elemsof("byte")
+//@ end
+//@ func textProgressBar.writeProgress
+//@   assigns wlog, wlen, bufLen, bufCap, bufArr, elemsof("byte")
+//@ end
+
+//@ # C20: rendering is total and hands getProgressText a percentage of at most four characters
+//@ # ("0%".."100%") and ASCII fields, for ALL values of step and size (negative, zero, step > size)
+//@ func textProgressBar.showProgress
+//@   requires pbWF(p)
+//@   assigns p.lastUpdateTime, p.firstWrite, p.recentSpeed.timeArray, p.recentSpeed.stepArray, p.recentSpeed.speedCnt, p.recentSpeed.speedIdx, sbWidth, sbAscii, wlog, wlen, bufLen, bufCap, bufArr, elemsof("byte")
+//@   ensures pbWF(p)
+//@ end
+
+//@ # a step report never moves the position backwards; non-advancing reports are ignored
+//@ func textProgressBar.onStep
+//@   nilable p
+//@   requires p != nil ==> pbWF(p)
+//@   ensures p != nil ==> pbWF(p) && p.fileStep >= old(p.fileStep) && p.fileSize == old(p.fileSize)
+//@ end
+//@ func textProgressBar.onSize
+//@   nilable p
+//@   requires p != nil ==> pbWF(p)
+//@   ensures p != nil ==> pbWF(p)
+//@ end
+//@ func textProgressBar.onDone
+//@   nilable p
+//@   requires p != nil ==> pbWF(p)
+//@   ensures p != nil ==> pbWF(p)
+//@ end
+//@ func textProgressBar.onName
+//@   nilable p
+//@   requires p != nil ==> p.colorA == nil || p.colorB == nil
+//@   ensures p != nil ==> pbWF(p)
+//@ end
